@@ -1,6 +1,9 @@
 package main
 
 import (
+	"encoding/json"
+	"path/filepath"
+	"os"
 	"fmt"
 	"go/constant"
 	"go/types"
@@ -156,6 +159,106 @@ func templateChecks(eng *Engine, key string) []*Obligation {
 			}
 		}
 		out = append(out, mkObT(short+"/json[body-from-encoding-json]", "every body written is the result of json.Marshal", n > 0 && bad == "", fmt.Sprintf("%d writes; offending: %s", n, bad), props))
+	}
+	// (5) bytes reach a response only at listed sites: a direct Write / Fprint* / WriteString on a ResponseWriter
+	// (http.Error is not one: it answers text/plain with nosniff) happens only in the functions listed in
+	// spec/response_writers.json — each of which is covered by (2)-(4) or writes constant/encoded bytes
+	allowed := map[string]bool{}
+	if b, err := os.ReadFile(filepath.Join(verifDir(), "spec", "response_writers.json")); err == nil {
+		var lst []string
+		if json.Unmarshal(b, &lst) == nil {
+			for _, n := range lst {
+				allowed[n] = true
+			}
+		}
+	}
+	isRW := func(v ssa.Value) bool {
+		for i := 0; i < 4; i++ {
+			if types.TypeString(v.Type(), nil) == "net/http.ResponseWriter" {
+				return true
+			}
+			switch x := v.(type) {
+			case *ssa.ChangeInterface:
+				v = x.X
+			case *ssa.MakeInterface:
+				v = x.X
+			default:
+				return false
+			}
+		}
+		return false
+	}
+	nW := 0
+	sitesByFn := map[string]int{}
+	for _, fn := range fns {
+		for _, b := range fn.Blocks {
+			for _, in := range b.Instrs {
+				c, ok := in.(ssa.CallInstruction)
+				if !ok {
+					continue
+				}
+				cc := c.Common()
+				site := false
+				if cc.IsInvoke() {
+					if (cc.Method.Name() == "Write" || cc.Method.Name() == "WriteString") && isRW(cc.Value) {
+						site = true
+					}
+				} else if sc := cc.StaticCallee(); sc != nil && len(cc.Args) > 0 {
+					switch sc.String() {
+					case "fmt.Fprintf", "fmt.Fprint", "fmt.Fprintln", "io.WriteString", "io.Copy":
+						site = isRW(cc.Args[0])
+					}
+				}
+				if site {
+					nW++
+					sitesByFn[shortFn(fn)]++
+				}
+			}
+		}
+	}
+	var wfns []string
+	for n := range sitesByFn {
+		wfns = append(wfns, n)
+	}
+	sort.Strings(wfns)
+	for _, n := range wfns {
+		out = append(out, mkObT(n+"/templates[listed-response-writer]", "direct writes to a response happen only in listed functions", allowed[n], fmt.Sprintf("%d direct write(s) to a ResponseWriter in a function that is not in spec/response_writers.json", sitesByFn[n]), props))
+	}
+	out = append(out, mkObT("templates[response-writers-found]", "direct response writes were found (vacuity guard)", nW > 0, fmt.Sprintf("%d sites", nW), props))
+
+	// (6) what is JSON-encoded into a response is inert data: the static type handed to writeJSONResponse /
+	// json.Marshal in the response paths has only string/number/bool fields (no interface{}, no json.RawMessage)
+	for _, fn := range fns {
+		k := 0
+		for _, b := range fn.Blocks {
+			for _, in := range b.Instrs {
+				c, ok := in.(*ssa.Call)
+				if !ok {
+					continue
+				}
+				sc := c.Call.StaticCallee()
+				if sc == nil {
+					continue
+				}
+				var data ssa.Value
+				switch {
+				case shortFn(sc) == "auth.writeJSONResponse" && len(c.Call.Args) == 3:
+					data = c.Call.Args[2]
+				case (sc.String() == "encoding/json.Marshal" || sc.String() == "encoding/json.MarshalIndent") && (strings.HasSuffix(shortFn(fn), ".XHRError") || strings.HasPrefix(shortFn(fn), "(*auth.Authenticator).")):
+					data = c.Call.Args[0]
+				}
+				if data == nil {
+					continue
+				}
+				k++
+				dt := data.Type()
+				if mi, ok := data.(*ssa.MakeInterface); ok {
+					dt = mi.X.Type()
+				}
+				why := jsonInert(dt, map[types.Type]bool{})
+				out = append(out, mkObT(fmt.Sprintf("%s/json[inert-data#%d]", shortFn(fn), k), "JSON-encoded response data carries no pre-encoded JSON (json.RawMessage) and no value of unknown type (interface{}): every string in it is escaped by encoding/json", why == "", "data type "+types.TypeString(dt, nil)+": "+why, props))
+			}
+		}
 	}
 	if fn := eng.fnByShort("auth.writeJSONResponse"); fn != nil {
 		enc, other := 0, 0
@@ -314,4 +417,37 @@ func checkTemplateSource(src string) string {
 		}
 	}
 	return why
+}
+
+// jsonInert explains why a value of type t could put bytes into a JSON document that encoding/json does not
+// escape: a json.RawMessage, or an empty interface (which could hold one); "" if it cannot.
+func jsonInert(t types.Type, seen map[types.Type]bool) string {
+	if seen[t] {
+		return ""
+	}
+	seen[t] = true
+	if n, ok := t.(*types.Named); ok && n.Obj().Pkg() != nil && n.Obj().Pkg().Path() == "encoding/json" && n.Obj().Name() == "RawMessage" {
+		return "json.RawMessage (pre-encoded JSON is copied verbatim)"
+	}
+	switch u := t.Underlying().(type) {
+	case *types.Pointer:
+		return jsonInert(u.Elem(), seen)
+	case *types.Slice:
+		return jsonInert(u.Elem(), seen)
+	case *types.Array:
+		return jsonInert(u.Elem(), seen)
+	case *types.Map:
+		return jsonInert(u.Elem(), seen)
+	case *types.Struct:
+		for i := 0; i < u.NumFields(); i++ {
+			if w := jsonInert(u.Field(i).Type(), seen); w != "" {
+				return "field " + u.Field(i).Name() + ": " + w
+			}
+		}
+	case *types.Interface:
+		if u.NumMethods() == 0 {
+			return "interface{} (could hold a json.RawMessage or a custom marshaler)"
+		}
+	}
+	return ""
 }
